@@ -5,6 +5,7 @@ package props
 import (
 	"fmt"
 	"image/color"
+	"strings"
 	"testing"
 
 	"github.com/boombuler/barcode"
@@ -330,6 +331,40 @@ func TestC14Exhaustive(t *testing.T) {
 			}
 		})
 	})
+	// an early content again after 20000 other short contents of its symbology (bounded memo tables that recycle
+	// their slots), and one character repeated more often than a 16-bit counter can count
+	for _, early := range []C14Case{{Kind: "code39", Content: BStr("A"), Checksum: true}, {Kind: "code39", Content: BStr("first"), Checksum: true, FullASCII: true},
+		{Kind: "code128", Content: BStr("First 1234")}, {Kind: "ean", Content: BStr("1234567")}} {
+		ct.guard(func() {
+			checkC14(ct, early)
+			for i := 0; i < 20000; i++ {
+				o := early
+				switch early.Kind {
+				case "code39":
+					o.Content = BStr(fmt.Sprintf("K%X-%d", i, i%7))
+				case "code128":
+					o.Content = BStr(fmt.Sprintf("c%d\x01%x", i, i))
+				default:
+					o.Content = BStr(fmt.Sprintf("%07d", i))
+				}
+				if i%500 == 0 {
+					checkC14(ct, o)
+				} else {
+					encodeSpec(EncSpec{Fam: early.Kind, Content: o.Content, F1: o.Checksum, F2: o.FullASCII})
+				}
+			}
+			checkC14(ct, early)
+			st.EvalN(20000)
+			st.Class("early content checked again after 20000 other contents")
+		})
+	}
+	for _, c := range []C14Case{{Kind: "code39", Content: BStr(strings.Repeat("A", 70000)), Checksum: true}, {Kind: "code39", Content: BStr(strings.Repeat("Z", 66000) + "-1"), Checksum: true, Scales: []int{1}}} {
+		ct.guard(func() {
+			checkC14(ct, c)
+			st.Eval()
+			st.Class("one character repeated more than 65535 times")
+		})
+	}
 	st.Sample("exhaustive", C14Case{Kind: "ean", Content: BStr("1234567")})
 	if stride == 1 {
 		st.Set("exhaustive", true)
